@@ -14,6 +14,7 @@ import os
 
 from vt import core
 from vt.main import decide
+from translate import imports_tr
 
 BASE = "__base__"
 BASE_NAMES = ["ID", "STRING", "BOOL", "INT", "FLOAT", "STRICTFLOAT", "NUMBER", "BASETYPE", "OBJECT"]
@@ -568,7 +569,7 @@ def exhaustive_cases():
 
 
 def run(chk):
-    chk.prove([])
+    chk.prove([imports_tr.translate])
     n = 900 if chk.thorough else 130
     cases = corpus_cases()
     ncorpus = len(cases)
@@ -609,7 +610,7 @@ def run(chk):
                        "[Class]; 30% of cases also unresolvable/foreign names); the real loader's namespaces, import lists, creation counts, per-reference resolved "
                        "classes, metamodel[name] and parses of texts exercising each reachable reference are compared with the Coq model and judged by the "
                        "documented resolution; non-trivial = at least two files loaded and at least one reference; distinct by (files, main)")
-    chk.assumptions += ["Model/Imports.v transcribes metamodel.py namespaces/_new_import/__getitem__/_cls_fqn and the visit order of lang.py; tied by the correspondence only (no translator)",
+    chk.assumptions += ["Model/Imports.v transcribes metamodel.py namespaces/_new_import/__getitem__/_cls_fqn and the visit order of lang.py; look-up order, qualified split, import registration/normalisation, initial import list and _cls_fqn are translated from the source on every run (imports_tr.py), the rest is compared as text and by the correspondence",
                         "the namespace stack is modelled by the call structure of nested loads",
                         "file names are \\w+ without dots; one physical file per namespace name (no symlinks, case-sensitive file system)"]
     decide(chk, failures, disagreements)
@@ -621,6 +622,10 @@ def replay(rep):
         print(json.dumps(rep, indent=1)[:4000])
         return 0
     o = run_cases([case])[0]
+    try:
+        imports_tr.translate()
+    except Exception as ex:  # noqa: BLE001
+        print("translator:", ex)
     vals, errs = coq_run("C25r", [case])
     print("files:")
     for k, v in case["files"].items():
